@@ -187,6 +187,11 @@ class SolveGroupSwizzlerPartsel(object):
             while maxval > 0:
                 d_width += 1
                 maxval >>= 1
+                
+            if t_range[0] < 0 and d_width < f.width:
+                # The range has negative values: include the sign bit,
+                # so values of the range do not share a bit pattern
+                d_width += 1
     
             if self.debug > 0:
                 print("d_width: %d" % d_width)                
